@@ -32,7 +32,7 @@ func declaresGo(s *ast.Schema, T, f string) bool {
 }
 
 func c04Oracle(c mgCase, items [][]string, schemas []*ast.Schema, outs []mgOutcome) []hx.Failure {
-	var fs failSet
+	var fs mgFailSet
 	bad := func(o mgOutcome, format string, a ...interface{}) {
 		fs.add(strings.SplitN(format, "%", 2)[0], hx.Failure{Kind: "property-fails", Detail: fmt.Sprintf("perm %v: ", o.Perm) + fmt.Sprintf(format, a...), Impl: stripOutcome(o)})
 	}
